@@ -7,6 +7,7 @@ import (
 	"github.com/orda-io/orda/client/pkg/iface"
 	"github.com/orda-io/orda/client/pkg/model"
 	"github.com/orda-io/orda/client/pkg/operations"
+	"github.com/orda-io/orda/client/pkg/verifhook"
 )
 
 // WiredDatatype implements the datatype features related to the synchronization with Orda server
@@ -250,6 +251,7 @@ func (its *WiredDatatype) ApplyPushPullPack(ppp *model.PushPullPack) {
 		if !subscribing {
 			its.excludeDuplicatedOperations(ppp)
 		}
+		verifhook.At("WiredDatatype.ApplyPushPullPack:excluded", its.opID.CUID+"/"+its.Key)
 		its.syncCheckPoint(ppp.CheckPoint)
 		oldState, newState, err = its.updateStateOfDatatype(ppp)
 		if err != nil {
